@@ -94,6 +94,8 @@ pub struct AutoConfig {
     pub confirms: bool,
     /// close the socket right after answering Connection.Close with CloseOk
     pub eof_after_close_ok: bool,
+    /// answer Connection.Close only after this long, sending heartbeats meanwhile
+    pub close_ok_delay_ms: u64,
     /// stop answering anything (the server goes silent) once this is set
     pub silent: Arc<AtomicBool>,
 }
@@ -112,7 +114,21 @@ pub fn auto_broker(peer: Peer, cfg: AutoConfig, stop: Arc<AtomicBool>, seen: Arc
     let mut confirm_mode: std::collections::HashSet<u16> = Default::default();
     let mut dtag: std::collections::HashMap<u16, u64> = Default::default();
     let mut ctag = 0u32;
+    let mut close_ok_due: Option<Instant> = None;
+    let mut next_hb = Instant::now();
     while !stop.load(Ordering::SeqCst) {
+        if let Some(due) = close_ok_due {
+            if Instant::now() >= due {
+                peer.push(&conn_close_ok());
+                if cfg.eof_after_close_ok {
+                    peer.end(crate::mock::Fault::Eof);
+                }
+                close_ok_due = None;
+            } else if Instant::now() >= next_hb {
+                peer.push(&heartbeat());
+                next_hb = Instant::now() + Duration::from_millis(300);
+            }
+        }
         let data = peer.written();
         let (has_header, frames, _rest) = split_written(&data);
         if has_header && !sent_start && !cfg.silent.load(Ordering::SeqCst) {
@@ -134,9 +150,13 @@ pub fn auto_broker(peer: Peer, cfg: AutoConfig, stop: Arc<AtomicBool>, seen: Arc
                 (10, 31) => None,
                 (10, 40) => Some(open_ok()),
                 (10, 50) => {
-                    peer.push(&conn_close_ok());
-                    if cfg.eof_after_close_ok {
-                        peer.end(crate::mock::Fault::Eof);
+                    if cfg.close_ok_delay_ms > 0 {
+                        close_ok_due = Some(Instant::now() + Duration::from_millis(cfg.close_ok_delay_ms));
+                    } else {
+                        peer.push(&conn_close_ok());
+                        if cfg.eof_after_close_ok {
+                            peer.end(crate::mock::Fault::Eof);
+                        }
                     }
                     None
                 }
